@@ -87,6 +87,13 @@ ObsMailReject(o, m, d) ==
   THEN [Bump(o, "dest", d, 0) EXCEPT !.cm[m].dst = @ \ {d}, !.cm[m].opt = @ \cup {d}]
   ELSE o
 
+\* The next hop refused RCPT TO for the first recipient of domain d after the message had
+\* taken the destination permit and MAIL had been accepted: no recipient of d is being
+\* delivered over that connection.  Weak reading (DESIGN 2.5): the message no longer counts
+\* as a holder, and whether it gives the permit back now (dropping the connection) or when
+\* its delivery ends (what the code does) is left open - but it must be back by then.
+ObsRcptReject(o, m, d) == ObsMailReject(o, m, d)
+
 \* ---- Ret ----------------------------------------------------------------
 IsPanic(res) == res \in {"nilptr", "mismatch", "other"}
 
@@ -129,9 +136,12 @@ Slack(o, s, k) ==
                  (s = "all" \/ (s = "ip" /\ o.pend[m].ip = k))})
   + (IF s = "dest" THEN Cardinality({m \in DOMAIN o.cm : k \in o.cm[m].opt}) ELSE 0)
 
+\* (a message that may still keep the destination permit of a refused attempt, cm.opt, counts:
+\* the blocked caller may be waiting for exactly that permit)
 LegitBlock(o, m) ==
   LET p == o.pend[m]
-      full(s, k) == N(o, s) > 0 /\ o.hold[s][k] >= N(o, s)
+      optd(s, k) == IF s = "dest" THEN Cardinality({x \in DOMAIN o.cm : k \in o.cm[x].opt}) ELSE 0
+      full(s, k) == N(o, s) > 0 /\ o.hold[s][k] + optd(s, k) >= N(o, s)
   IN IF p.op = "TakeMsg"
      THEN full("all", AllKey) \/ full("ip", p.ip) \/ full("source", p.src)
      ELSE full("dest", p.d)
@@ -153,6 +163,7 @@ SlackX(o, s, k) ==
   Cardinality({m \in DOMAIN o.pend :
      \/ o.pend[m].op = "TakeMsg" /\ (s = "all" \/ (s = "ip" /\ o.pend[m].ip = k) \/ (s = "source" /\ o.pend[m].src = k))
      \/ o.pend[m].op = "TakeDest" /\ s = "dest" /\ o.pend[m].d = k})
+  + (IF s = "dest" THEN Cardinality({m \in DOMAIN o.cm : k \in o.cm[m].opt}) ELSE 0)
 ObsSnapX(o, usex, nosem) ==
   LET K  == DOMAIN o.hold["all"]
       chk(s, k) == N(o, s) > 0 /\ <<s, k>> \notin nosem /\ k \in DOMAIN usex[s]
